@@ -3,7 +3,7 @@ proof: coq/Props/C05.v over the client LTS (coq/Client/Model.v, InvOut.v, C05Pro
 tie: scripts on the real Client vs the extracted model; the raw bytes the peer receives are parsed by
 the harness's own frame parser, payloads checked by hash, ids collected; the property is evaluated on
 what Go wrote."""
-import json, random
+import json, os, random, re
 import vlib
 import client_common as cc
 
@@ -116,6 +116,112 @@ def gen_scripts(seed, n, thorough):
             for i in range(n)]
 
 
+def gated_script(rnd, sid):
+    """the write loop is parked BETWEEN the header Write and the payload Write of a request (the two are
+    separate conn.Write calls) while keep-alives arrive — more than the ack queue holds in most scripts.
+    Whoever else writes to the connection now lands inside the frame. Judged on Go's bytes only."""
+    version = rnd.choice([1, 2])
+    b = cc.SB(sid, version=version)
+    b.connect(cur=rnd.choice([1, 2]), mx=2)
+    tag = rnd.randrange(1, 1 << 20) * 64
+    if rnd.random() < 0.5:                        # a request already answered / outstanding before
+        b.send(1, rnd.choice(REQ_TYPES), rnd.choice([0, 5, 300]), tag + 1)
+        if rnd.random() < 0.5:
+            b.reply_to(1, 1023, rnd.choice([0, 3, 64]), tag + 2)
+            b.wait(1)
+    b.op("gate_payload")
+    n = rnd.choice([1, 2, 10, 100, 129, 4096, 65536])
+    b.send(2, rnd.choice(REQ_TYPES), n, tag + 3, expect=False)
+    b.op("expect_header")
+    nka = rnd.choice([0, 3, 5, 6, 6, 7, 7, 8])
+    for k in range(nka):
+        b.keepalive(rnd.choice([0, 4294967295, 1000 + k, rnd.randrange(1 << 32)]))
+    b.op("state")
+    b.op("release_payload")
+    b.op("expect_rest")
+    b.req_index[2] = b.nseen
+    b.nseen += 1
+    b.op("drain")
+    if rnd.random() < 0.5:
+        b.reply_to(2, 1023, rnd.choice([0, 7, 200]), tag + 4)
+        b.wait(2)
+    b.op("state")
+    sc = b.script()
+    sc["family"] = "gated"
+    sc["step_ms"] = 1500
+    return sc
+
+
+# ---------------------------------------------------------------- static: who writes to the connection?
+READ_USE = re.compile(r"io\.ReadFull\(\s*c\.conn|io\.ReadAtLeast\(\s*c\.conn|io\.LimitReader\(\s*c\.conn|io\.Copy(N|Buffer)?\(\s*io\.Discard\s*,\s*c\.conn|"
+                      r"c\.conn\.Read\(|c\.conn\.Set(Read|Write)?Deadline\(|c\.conn\.(Remote|Local)Addr\(|bufio\.NewReader(Size)?\(\s*c\.conn|"
+                      r"c\.conn\s*(==|!=)\s*nil|ioutil\.ReadAll\(\s*c\.conn|io\.ReadAll\(\s*c\.conn")
+WRITE_USE = re.compile(r"c\.conn\.Write\(|io\.Copy(N|Buffer)?\(\s*c\.conn|io\.WriteString\(\s*c\.conn|fmt\.Fprint(f|ln)?\(\s*c\.conn|"
+                       r"binary\.Write\(\s*c\.conn|\.WriteTo\(\s*c\.conn|bufio\.NewWriter(Size)?\(\s*c\.conn")
+
+
+def single_writer_static(res):
+    """Way 1 for the model's single-writer assumption: tools/go-access lists every use of Client.conn with its
+    enclosing function and the goroutine role(s) that can reach it. Every use that can write to the connection
+    (a recognised write call, or any use that is not a recognised read/deadline/address call) must be reachable
+    from the write loop only. Returns a dict for the evidence."""
+    src = os.path.join(vlib.ROOT, "tools", "go-access")
+    exe = os.path.join(vlib.BUILD, "go-access")
+    with vlib.Lock("go_access_build"):
+        rc, out = vlib.sh(["go", "build", "-o", exe, "."], cwd=src, env=vlib.GOENV, timeout=300)
+    if rc != 0:
+        res.violation("tool-build", "tools/go-access does not build: " + out[-600:], dict(kind="build"), False)
+        return {}
+    os.makedirs(os.path.join(vlib.GEN, "C05"), exist_ok=True)
+    jpath = os.path.join(vlib.GEN, "C05", "access.json")
+    rc, out = vlib.sh([exe, "-repo", vlib.REPO, "-json", jpath, "-out", os.path.join(vlib.GEN, "C05", "AccessTable.v")], timeout=300)
+    if rc != 0 or not os.path.exists(jpath):
+        res.violation("extraction-failed", "go-access could not extract the accesses of Client.conn: " + out[-600:], dict(kind="way1"), False)
+        return {}
+    acc = [a for a in json.load(open(jpath)).get("accesses", []) if a.get("loc") == "Client.conn"]
+    lines = {}
+    uses = {}       # (file, line, func) -> dict(kind, roles)
+    for a in acc:
+        if a.get("kind") != "KRead":          # assignment to the field itself (Connect): not a use of the connection
+            continue
+        f = a["file"]
+        if f not in lines:
+            try:
+                lines[f] = open(os.path.join(vlib.REPO, "pkg", "llrp", f)).read().split("\n")
+            except OSError:
+                lines[f] = []
+        # the statement: from the access line until the parentheses balance (at most 6 lines)
+        stmt, depth = "", 0
+        for ln in lines[f][a["line"] - 1:a["line"] + 5]:
+            stmt += " " + ln.strip()
+            depth += ln.count("(") - ln.count(")")
+            if depth <= 0:
+                break
+        kind = "write" if WRITE_USE.search(stmt) else ("read" if READ_USE.search(stmt) else "other")
+        u = uses.setdefault((f, a["line"], a["func"]), dict(kind=kind, roles=set(), stmt=stmt.strip()[:160]))
+        u["roles"].add(a["role"])
+    writers, bad = [], []
+    for (f, line, func), u in sorted(uses.items()):
+        if u["kind"] == "read":
+            continue
+        writers.append("%s:%d %s [%s] roles=%s" % (f, line, func, u["kind"], ",".join(sorted(u["roles"]))))
+        extra = sorted(r for r in u["roles"] if r != "Client/write-loop")
+        if extra:
+            bad.append((f, line, func, u, extra))
+    for f, line, func, u, extra in bad:
+        sig = "second-writer:%s" % func if u["kind"] == "write" else "conn-use-outside-write-loop:%s" % func
+        res.violation(sig, "%s:%d `%s` %s to the connection and is reachable from %s, not only from the write loop: "
+                      "the outbound stream has more than one writer, frames can interleave (C05's single-writer premise)" % (
+                          f, line, u["stmt"], "writes" if u["kind"] == "write" else "may write", ", ".join(extra)),
+                      dict(kind="way1", table="build/gen/C05/access.json", site="%s:%d" % (f, line), function=func, roles=sorted(u["roles"]),
+                           witness_family="gated (c05.gated_script): write loop parked between header and payload, >= 6 keep-alives"),
+                      found_input=False)
+    if not writers:
+        res.violation("no-writer-found", "go-access found no write to Client.conn at all: the extraction no longer matches the source",
+                      dict(kind="way1"), False)
+    return dict(conn_uses=len(uses), write_capable=writers, outside_write_loop=len(bad))
+
+
 def close_payload_script():
     """SendMessage(MsgCloseConnection, 5 bytes): predicate only (see notes/C05.md)"""
     b = cc.SB("c05-close-payload", version=1)
@@ -137,6 +243,7 @@ def run(tier, seed, replay=None):
         "payload identity is (length, sha256 prefix); the peer parses headers with its own code",
     ]
     vlib.proof_part(res, PID)
+    static = single_writer_static(res)
     exe, err = cc.build(PID)
     if err:
         res.violation("build", err, dict(kind="build"), False)
@@ -151,7 +258,8 @@ def run(tier, seed, replay=None):
             pred_only, scripts = scripts, []
     else:
         scripts = gen_scripts(seed, 2500 if thorough else 400, thorough)
-        pred_only = [close_payload_script()]
+        rg = random.Random(seed + 11)
+        pred_only = [close_payload_script()] + [gated_script(rg, "c05-gated-%d" % i) for i in range(120 if thorough else 24)]
     scripts = cc.staged(exe, scripts, lambda s_, g_: bool(cc.pred_c05(cc.go_view(s_, g_))))
     go, logs = cc.run_go(exe, scripts, shards=8)
     flag, diffs, counts = cc.pick_variant(scripts, go) if scripts else ((False, False), [], {})
@@ -195,14 +303,37 @@ def run(tier, seed, replay=None):
                     s["id"], "; ".join(d2[:4])), dict(kind="correspondence", correspondence="C05/frame-stream", script=s,
                                                       differences=d2[:10]), False)
     # predicate-only scenarios
-    pg, _ = cc.run_go(exe, pred_only, shards=1)
+    pg, _ = cc.run_go(exe, pred_only, shards=8)
+    n_gated = n_gated_backlog = 0
     for s, g in zip(pred_only, pg):
         evals += 1
         dist[s["family"]] = dist.get(s["family"], 0) + 1
-        if g is None:
+        if g is None or g.get("st") in ("watchdog", "skipped", "crash"):
+            if "crash" not in reported:
+                reported.add("crash")
+                cc.crash_violation(res, PID, s, g)
             continue
         view = cc.go_view(s, g)
-        for sig, text in cc.pred_c05(view):
+        found = list(cc.pred_c05(view))
+        if s["family"] == "gated":
+            n_gated += 1
+            nka = sum(1 for st in s["steps"] if st["op"] == "keepalive")
+            n_gated_backlog += 1 if nka >= 6 else 0
+            nontriv.add((s["id"], nka, len(view["frames"])))
+            ov = ((g.get("final") or {}).get("state") or {}).get("overlapping_writes", 0)
+            ov = max([ov] + [o.get("overlapping_writes", 0) for o in (g.get("obs") or []) if isinstance(o, dict)])
+            if ov:
+                found.insert(0, ("second-writer-interleaved",
+                                 "%d Write call(s) on the connection started while the write loop was between the header and the payload "
+                                 "of a frame (%d keep-alives sent meanwhile): another goroutine writes to the connection; frames read by "
+                                 "the peer: %s" % (ov, nka, [(f.get("typ"), f.get("lenfield"), f.get("st")) for f in view["frames"]][:8])))
+            parked = [o for st, o in zip(s["steps"], g.get("obs") or []) if st["op"] == "release_payload"]
+            if parked and not parked[0].get("was_parked") and "gate-ineffective" not in reported:
+                reported.add("gate-ineffective")
+                res.violation("gate-ineffective", "script %s: the write loop did not stop between header and payload (header and payload are "
+                              "no longer separate Writes?) — the interleaving scenario is not exercised" % s["id"],
+                              dict(kind="script", script=s), False)
+        for sig, text in found:
             fr = view["frames"][-1] if view["frames"] else {}
             if s["family"] == "close-payload" and fr.get("typ") == 14 and fr.get("st") == "short-payload":
                 sig = "closeconnection-payload-dropped"
@@ -210,7 +341,7 @@ def run(tier, seed, replay=None):
                         "(the write loop parks after the CloseConnection header, before the payload copy)" % fr.get("lenfield"))
             if sig not in reported:
                 reported.add(sig)
-                res.violation(sig, text, dict(kind="script", script=s, theorem="C05_outbound_is_frame_concat / C05_chunks_of_frame"))
+                res.violation(sig, "%s [script %s]" % (text, s["id"]), dict(kind="script", script=s, theorem="C05_outbound_is_frame_concat"))
     # stress
     stress = []
     if replay and "stress" in rp_data:
@@ -243,6 +374,7 @@ def run(tier, seed, replay=None):
                     res.violation(sig, "%s [stress %s]" % (text, rq["id"]), dict(kind="stress", stress=rq, theorem="C05_*"))
     res.coverage.update(
         evaluations=evals, distinct_nontrivial=len(nontriv), frames_parsed=nframes,
+        single_writer_static=static, gated_scripts=dict(run=n_gated, with_6_or_more_keepalives=n_gated_backlog),
         rule="a case is one script / stress run on the real Client (and on the model); non-trivial iff the peer read at least 3 frames; "
              "distinct by (script id, #frames, #callers)",
         samples=samples, input_distribution=dist, traces_validated_against_impl=evals,
